@@ -39,7 +39,8 @@ func (t *XMPPTransport) Connect() (string, error) {
 	t.isSecure = false
 	t.conn, err = net.DialTimeout("tcp", t.Config.Address, time.Duration(t.Config.ConnectTimeout)*time.Second)
 	if err != nil {
-		return "", NewConnError(err, true)
+		// A server that cannot be reached right now (refused, timed out) may well be back later: not permanent
+		return "", NewConnError(err, false)
 	}
 
 	t.closeChan = make(chan stanza.StreamClosePacket)
